@@ -126,6 +126,20 @@ static const ares_nameoffset_t *ares_nameoffset_find(ares_llist_t *list,
       continue;
     }
 
+    /* ... and that "." must really separate two labels: if it is preceded by
+     * an odd number of backslashes it is an escaped dot inside a label */
+    if (prefix_len >= 2) {
+      size_t nslash = 0;
+      size_t i;
+
+      for (i = prefix_len - 1; i > 0 && name[i - 1] == '\\'; i--) {
+        nslash++;
+      }
+      if (nslash % 2 == 1) {
+        continue;
+      }
+    }
+
     longest_match = val;
   }
 
